@@ -1676,7 +1676,9 @@ def ttno_layout(chk, src):
         import itertools as _it
         it3 = SymInterp(src, None, {"np": Sym("np", full=lambda shape, fill, dtype=None: _GridN(shape), ndenumerate=lambda g: [(i, g.cells[i]) for i in sorted(g.cells)],
                                               ndindex=lambda *shape: list(_it.product(*[range(d) for d in (shape[0] if len(shape) == 1 and isinstance(shape[0], (list, tuple)) else shape)])),
-                                              empty=lambda shape, dtype=None: _GridN(shape))})
+                                              empty=lambda shape, dtype=None: _GridN(shape)),
+                                   # an explicit operator product keeps every factor of every operand, in order
+                                   "Op": Sym("Op", product=lambda ps: _P([x for p_ in ps for x in (p_.items if isinstance(p_, _P) else [repr(p_)])]))})
         in_ops_list = [[f"c{c}op{j}" for j in range(2)] for c in range(nch)]
         prim = {j: f"prim{j}" for j in range(5)}
         comp = []
